@@ -3,15 +3,15 @@ CONSTANTS
   Enforce = {"C13"}
   NsIds = {0, 1, 2, 3}
   Atts = {1, 2, 3, 4, 5, 6}
-  MCPods = {1, 2, 3}
-  MCDps = {"policy", "exclusive"}
+  MCPods = {1, 2}
+  MCDps = {"policy"}
   MCFams = {"v4", "v6", "dual"}
   MCTrunk = {FALSE}
   MCExtra = {0, 1, 2}
-  MCMulti = {FALSE, TRUE}
-  MCHow = {"cni", "dp", "generic"}
+  MCMulti = {FALSE}
+  MCHow = {"generic", "cni"}
   MCEnis = {1, 2}
   BadDesign = ""
-  GenLen = 10
+  GenLen = 8
   GenOn = TRUE
 CHECK_DEADLOCK FALSE
